@@ -417,6 +417,23 @@ func runScript(seed uint64, idx int, mix string, nev int, kinds map[string]int) 
 	if mix == "c04" && r.Intn(2) == 0 {
 		cfg.RcvBuf = []int{100, 300, 700}[r.Intn(3)]
 	}
+	// placements that make a window edge (not only the next sequence number) cross 2^32 or 2^31
+	// during the script: the receive window's right edge starts just below the boundary, or the
+	// peer's window / the stream itself straddles it
+	effRcv := uint32(1 << 20)
+	if cfg.RcvBuf > 0 {
+		effRcv = uint32(cfg.RcvBuf)
+	}
+	switch r.Intn(8) {
+	case 0:
+		cfg.IRS = -effRcv - 1 - uint32(r.Intn(900))
+	case 1:
+		cfg.IRS = uint32(1<<31) - effRcv - 1 - uint32(r.Intn(900))
+	case 2:
+		cfg.ISS = 0xffffffff - 30000 - uint32(r.Intn(3000))
+	case 3:
+		cfg.ISS = uint32(1<<31) - 30000 - 1 - uint32(r.Intn(3000))
+	}
 	c, err := tcpx.Dial(cfg)
 	if err != nil {
 		return "", err
